@@ -12,8 +12,8 @@ from math import ceil
 PROP = "C05"
 META = {
  "engine": "S-scheduler",
- "text": "Coq theorems (Props/C05.v) about the executable model of Timeline/Track (Sched/Model.v), for ALL call times t, all q >= 0, d >= 0 and all tick lengths (no bound; induction over histories): the time computed by _schedule_action is the least multiple of q that is >= t, plus d (t + d for q = 0 and for t on the q-grid); update()/schedule() resolve None arguments from the timeline defaults, explicit arguments win, positive device latency is added to the delay, and Track.start runs inside the call iff q = d = 0, otherwise a start action for that time is appended in request order; the action stays pending over ANY history (ticks, outside calls, calls made by callbacks, faults) whose ticks all begin before its time; the first tick that begins at or after it fires it before any track event of that tick, the track gets the new stream with next_event_time = current_time while count, mute state and pending note-offs are untouched, of several due starts for one track the one requested last wins, and the first event of the new stream is the event performed on that tick (C01 places the later ones); on ticks without a due start the track only pulls from the stream it has. Tied to /repo on every run by a correspondence check (call times on/off the q-grid, at 0 and after up to 2*10^4 (quick) / 2*10^5 (thorough) ticks, q, d in {0, one tick, 0.1, 0.25, 1/3, 0.5, 1, 4} beats and None, 9 resolutions, calls from outside and from action callbacks, 1-3 updates with colliding target ticks, timeline defaults vs explicit arguments, device latency) executed on the real Timeline with a recording OutputDevice and inside Coq (vm_compute) on the model, compared call by call and tick by tick, plus an independent exact-fraction oracle (start tick, old stream until then / new stream after, last update wins, pending notes released on time). Float layer: Props/C05Float.v proves that the action due test as the source writes it decides like the exact comparison at every resolution (also where tick times are decimal ties of round(., 8): 512 | ticks_per_beat); a stratum of 140 cases at resolutions 512..5120 whose quantize / delay are whole numbers of ticks handed over as inexact doubles (products, sums, differences) on many call ticks is judged by the exact-fraction start tick and reports the tie defect repaired by 9bb39e5 if it returns.",
- "note": "Trusted: Coq kernel+VM; the Python harness. Modelled, not verified: IEEE-754 arithmetic inside isobar (the model computes in exact integer units; agreement is validated by the correspondence runs, not proved); events are taken already resolved (C03). The 'old stream until' theorems are stated for callbacks that perform no timeline operation (an update made by a callback is itself a request covered by the request/pending/fire theorems); the composition of the per-tick theorems into one end-to-end trace statement is by reading, the correspondence compares whole traces. An immediate update (q = d = 0) made between ticks at exactly the time a deferred start for the same track is due is overridden by that deferred start (the action phase runs after the call): such collisions are generated, judged by the model, and excluded from the oracle's last-wins verdict (docs/C05.md).",
+ "text": "Coq theorems (Props/C05.v) about the executable model of Timeline/Track (Sched/Model.v), for ALL call times t, all q >= 0, d >= 0 and all tick lengths (no bound; induction over histories): the time computed by _schedule_action is the least multiple of q that is >= t, plus d (t + d for q = 0 and for t on the q-grid); update()/schedule() resolve None arguments from the timeline defaults, explicit arguments win, positive device latency is added to the delay, and Track.start runs inside the call iff q = d = 0, otherwise a start action for that time is appended in request order; the action stays pending over ANY history (ticks, outside calls, calls made by callbacks, faults) whose ticks all begin before its time; the first tick that begins at or after it fires it before any track event of that tick, the track gets the new stream with next_event_time = current_time while count, mute state and pending note-offs are untouched, of several due starts for one track the one requested last wins, and the first event of the new stream is the event performed on that tick (C01 places the later ones); on ticks without a due start the track only pulls from the stream it has. Tied to /repo on every run by a correspondence check (call times on/off the q-grid, at 0 and after up to 2*10^4 (quick) / 2*10^5 (thorough) ticks, q, d in {0, one tick, 0.1, 0.25, 1/3, 0.5, 1, 4} beats and None, 9 resolutions, calls from outside and from action callbacks, 1-3 updates with colliding target ticks, timeline defaults vs explicit arguments, device latency) executed on the real Timeline with a recording OutputDevice and inside Coq (vm_compute) on the model, compared call by call and tick by tick, plus an independent exact-fraction oracle (start tick, old stream until then / new stream after, last update wins, pending notes released on time). Float layer: Props/C05Float.v proves that the action due test as the source writes it decides like the exact comparison at every resolution (also where tick times are decimal ties of round(., 8): 512 | ticks_per_beat); a stratum of 140 cases at resolutions 512..5120 whose quantize / delay are whole numbers of ticks handed over as inexact doubles (products, sums, differences) on many call ticks is judged by the exact-fraction start tick and reports the tie defect repaired by 9bb39e5 if it returns. Widened (Sched/UpdateMode.v, Props/C05Widened.v): (l) several output devices with different latency compensations - C05_device_latency / C05_device_latency_own_device_only: the latency added to the delay is that of the device the TRACK plays on and of no other; stratum of 90 histories with 2-3 devices, the track mostly on a non-default one (driver harness/impl/c05_impl.py), model and exact oracle as for the other strata; (k) updates that change more than the event stream - C05_deferred_update_is_clean / C05_old_pair_until_switch, for ANY track machine: a deferred replacement of the pair (stream, settings such as the interpolation mode) is heard as the old pair left alone until the switch tick and as the new pair started on that tick from then on; stratum of 120 control tracks (stepped / linear / cosine) whose deferred update keeps or changes the mode, judged differentially against the old pair left alone and the new pair scheduled on the switch tick on a timeline of its own.",
+ "note": "Trusted: Coq kernel+VM; the Python harness. Modelled, not verified: IEEE-754 arithmetic inside isobar (the model computes in exact integer units; agreement is validated by the correspondence runs, not proved); events are taken already resolved (C03). The 'old stream until' theorems are stated for callbacks that perform no timeline operation (an update made by a callback is itself a request covered by the request/pending/fire theorems); the composition of the per-tick theorems into one end-to-end trace statement is by reading, the correspondence compares whole traces. An immediate update (q = d = 0) made between ticks at exactly the time a deferred start for the same track is due is overridden by that deferred start (the action phase runs after the call): such collisions are generated, judged by the model, and excluded from the oracle's last-wins verdict (docs/C05.md). The interpolation stratum is not compared with an executable model (Sched/Model.v has no interpolating branch, Sched/Interp.v no updates): theorem over an abstract track machine + differential oracle; count= passed to a deferred update and replace-by-name with another output device are not generated (docs/C05.md).",
 }
 
 QD = ["tick", F(1, 10), F(1, 4), F(1, 3), F(1, 2), F(1), F(4)]
@@ -57,7 +57,7 @@ def on_grid_ticks(q, tick, lo, hi):
     return list(range(first, hi + 1, period))[:50]
 
 
-def gen_case(rng, tier, long_ticks=None):
+def gen_case(rng, tier, long_ticks=None, devices=False):
     tpb = rng.choice(G.TPBS)
     mode = rng.choice(["zero", "grid", "near", "off", "any"]) if long_ticks is None else "long"
     if mode == "near" and rng.random() < 0.5:
@@ -66,9 +66,22 @@ def gen_case(rng, tier, long_ticks=None):
     cfg = {}
     if rng.random() < 0.25:
         cfg["latency"] = rng.choice([tick, F(1, 10), F(1, 20), F(1, 4)])
+    tdev = None
+    if devices:
+        # several output devices with different latency compensations; the track plays on device tdev (mostly not the default one,
+        # device 0): it is ITS device's latency that is added to the delay
+        pool = [F(0), F(0), tick, F(1, 10), F(1, 20), F(1, 4), 3 * tick]
+        while True:
+            lats = [rng.choice(pool) for _ in range(rng.choice([2, 2, 3]))]
+            tdev = rng.randrange(len(lats)) if rng.random() < 0.2 else rng.randrange(1, len(lats))
+            if len(set(lats)) > 1 and (tdev == 0 or lats[tdev] != lats[0]):
+                break
+        cfg = {"devices": lats}
+        if lats[tdev] > 0:
+            cfg["latency"] = lats[tdev]          # what the model is told: the latency of the track's own device (C05_device_latency)
     lat = cfg.get("latency", F(0))
     family = rng.choice(["schedule", "update", "update"])
-    inside = rng.random() < 0.35
+    inside = rng.random() < 0.35 and not devices
     defaults = None
     if rng.random() < 0.3:
         defaults = (rng.choice([F(0), F(1, 4), F(1), tick, F(1, 2)]), rng.choice([F(0), F(0), tick, F(1, 10), F(1, 2)]))
@@ -219,8 +232,95 @@ def gen_case(rng, tier, long_ticks=None):
           "meta": {"family": family, "inside": inside, "mode": mode, "nreq": nreq, "defaults": None if not defaults else [str(dq), str(dd)],
                    "latency": str(lat),
                    "requests": [{"call_tick": ro["c"], "q": str(r["q"]), "d": str(r["d"])} for r, ro in zip(reqs, o["reqs"])]}}
+    if devices:
+        sc["op_device"] = {str(i): tdev for i, op in enumerate(ops) if op[0] == "schedule"}
+        sc["meta"]["mode"] = "devices." + mode
+        sc["meta"]["devices"] = {"latencies": [str(x) for x in cfg["devices"]], "track_on": tdev}
     sc["_o"] = o
     return sc
+
+
+# ---- updates that change more than the stream: the interpolation mode ---------------------------------------------
+MODES = ["none", "linear", "cosine"]
+
+
+def control_stream(rng, tpb, base):
+    tick = F(1, tpb)
+    n = rng.randint(2, 4)
+    items = [{"k": "control", "dur": tick * rng.randint(2, 9), "ctl": 7, "val": rng.choice([0, 10, 40, 64, 100, 127]) if i else base, "prog": 0, "chan": 0}
+             for i in range(n)]
+    if len(set(i["val"] for i in items)) == 1:
+        items[-1]["val"] = (base + 37) % 128
+    return G.stream(items, True, rng.choice(["scripted", "psequence", "pdict"]))
+
+
+def gen_interp_case(rng):
+    """a control track (stepped, linear or cosine), a deferred update that may change the interpolation mode, at least one tick between
+    the call and the switch.  Three histories: U (with the update), A (the old stream left alone), B (the new stream, in its new
+    mode, scheduled on the switch tick on a timeline of its own): the property demands U = A before the switch tick and U = B from
+    it on - whatever the streams' values are (C15's business)."""
+    while True:
+        tpb = rng.choice([4, 7, 10, 24, 48, 96])
+        tick = F(1, tpb)
+        m0 = rng.choice(MODES)
+        m1 = rng.choice([None, "none", "linear", "cosine"])
+        if m1 is None and rng.random() < 0.5:
+            continue
+        m1e = m0 if m1 is None else m1
+        k0 = rng.choice([0, 0, 1, rng.randint(0, tpb)])
+        c = rng.randint(1, 4 * tpb)
+        q, d = qd_value(rng, tick), qd_value(rng, tick)
+        qe, de = q or F(0), d or F(0)
+        t = (k0 + c) * tick
+        X = (qe * ceil(t / qe) if qe else t) + de
+        j = max(k0 + c, int(ceil(X / tick)))
+        if j < k0 + c + 1:
+            continue
+        n = j - (k0 + c) + rng.choice([5, tpb, 3 * tpb]) + 2
+        s0, s1 = control_stream(rng, tpb, 1), control_stream(rng, tpb, 2)
+        pre = [["tick", k0]] if k0 else []
+        sched0 = G.sched_op(s0, F(0), F(0), None, False)
+        U = {"tpb": tpb, "config": {}, "callbacks": [], "ops": pre + [sched0, ["tick", c], ["update", 0, s1, q, d, None], ["tick", n]],
+             "interp": {str(len(pre)): m0}}
+        if m1 is not None:
+            U["interp"][str(len(pre) + 2)] = m1
+        A = {"tpb": tpb, "config": {}, "callbacks": [], "ops": pre + [sched0, ["tick", c + n]], "interp": {str(len(pre)): m0}}
+        B = {"tpb": tpb, "config": {}, "callbacks": [], "ops": [["tick", j], G.sched_op(s1, F(0), F(0), None, False), ["tick", k0 + c + n - j]],
+             "interp": {"1": m1e}}
+        meta = {"family": "update", "inside": False, "mode": "interp", "nreq": 1, "defaults": None, "latency": "0",
+                "requests": [{"call_tick": k0 + c, "q": str(q), "d": str(d)}],
+                "old_mode": m0, "interpolate_argument": m1, "new_mode": m1e, "switch_tick": j, "total_ticks": k0 + c + n}
+        for x in (U, A, B):
+            x["meta"] = meta
+        return {"U": U, "A": A, "B": B, "meta": meta}
+
+
+def per_tick(fsc, r):
+    idx = S.tick_indices(fsc)
+    out = {}
+    for i, calls, res, ids in r["obs"]:
+        kind, t = idx[i]
+        if calls:
+            out.setdefault(t, []).extend([c[0]] + [float(x) for x in c[1:]] for c in calls)
+        if res != "ok":
+            out.setdefault(t, []).append(["result", res])
+    return out
+
+
+def oracle_interp(case, fU, rU, fA, rA, fB, rB):
+    """(ok, detail, leak): leak = the only deviation is that an interpolating old stream goes on after the switch into an interpolating
+    new one (known finding C05-interp-update-leak)"""
+    m = case["meta"]
+    j, total = m["switch_tick"], m["total_ticks"]
+    u, a, b = per_tick(fU, rU), per_tick(fA, rA), per_tick(fB, rB)
+    for t in range(total):
+        want = a.get(t, []) if t < j else b.get(t, [])
+        if u.get(t, []) != want:
+            what = ("before the switch tick %d the track must play its OLD stream in its OLD mode (%s)" % (j, m["old_mode"]) if t < j else
+                    "from the switch tick %d on only the NEW stream in its mode (%s)" % (j, m["new_mode"]))
+            leak = t >= j and m["old_mode"] != "none" and m["new_mode"] != "none"
+            return False, "tick %d: device calls %r, expected %r (%s)" % (t, u.get(t, []), want, what), leak
+    return True, "", False
 
 
 # ---- the float layer: start times that fall on a decimal tie of round(., 8) -------------------------------------------
@@ -376,6 +476,48 @@ def strip(sc):
     return {k: v for k, v in sc.items() if k != "_o"}
 
 
+def run_impl_c05(run, scenarios, shards=8):
+    parts = [scenarios[i::shards] for i in range(shards) if scenarios[i::shards]]
+    outs = run.impl_parallel("c05_impl", [{"scenarios": p} for p in parts])
+    res = [None] * len(scenarios)
+    for si, out in enumerate(outs):
+        for k, r in enumerate(out["results"]):
+            res[si + k * shards] = r
+    return res
+
+
+def check_interp(run, n):
+    rng = run.rng
+    cases = [gen_interp_case(rng) for _ in range(n)]
+    fins = [[G.finalize(c[k]) for k in "UAB"] for c in cases]
+    flat = [f for tri in fins for f in tri]
+    res = run_impl_c05(run, flat)
+    for i, (c, tri) in enumerate(zip(cases, fins)):
+        rU, rA, rB = res[3 * i:3 * i + 3]
+        m = c["meta"]
+        run.count()
+        run.dist("tpb.%d" % tri[0]["tpb"]); run.dist("family.update"); run.dist("call-time.interp"); run.dist("site.outside")
+        run.dist("update.mode.%s->%s" % (m["old_mode"], m["new_mode"]))
+        run.dist("update.interpolate-argument.%s" % ("given" if m["interpolate_argument"] else "absent"))
+        bad = [r for r in (rU, rA, rB) if "driver_error" in r]
+        if bad:
+            run.violation({"kind": "driver-error", "site": "Timeline"}, {"scenario": tri[0], "observed": bad[0]}, found_input=True)
+            continue
+        ok, detail, leak = oracle_interp(c, tri[0], rU, tri[1], rA, tri[2], rB)
+        run.cov["oracle_evaluations"] += 1
+        if sum(1 for _, calls, _, _ in rU["obs"] if calls) >= 2:
+            run.nontrivial(json.dumps(tri[0], sort_keys=True))
+        if not ok:
+            kind = "interp-update-leak" if leak else "update-changes-old-stream"
+            run.violation({"kind": kind, "site": "Track.update/Track.start"}, {
+                "scenario": tri[0], "meta": m, "observed": detail,
+                "oracle": "differential: the same old stream left alone (A) until the switch tick, the new stream in its new mode scheduled on "
+                          "the switch tick on a timeline of its own (B) from then on; switch tick = first tick j >= call tick with j*tick >= q*ceil(t/q)+d",
+                "reference_histories": {"A": tri[1], "B": tri[2]},
+                "python": "# PYTHONPATH=/repo /venv/bin/python /verif/harness/impl/c05_impl.py <<< '{\"scenarios\": [<scenario>, <A>, <B>]}'"})
+    return len(cases)
+
+
 def check(run):
     rng = run.rng
     quick = run.tier == "quick"
@@ -384,11 +526,13 @@ def check(run):
     longs = [2 * 10 ** 4] * 6 if quick else [2 * 10 ** 5] * 12 + [2 * 10 ** 4] * 12
     scs += [gen_case(rng, run.tier, long_ticks=lt - rng.randint(0, 50)) for lt in longs]
     scs += [gen_tie_case(rng) for _ in range(140 if quick else 2200)]
+    n_main = len(scs)
+    scs += [gen_case(rng, run.tier, devices=True) for _ in range(90 if quick else 1200)]
     fin = [G.finalize(strip(sc)) for sc in scs]
     for f in fin:
         if f.get("floats") and f["U"] * 2 > 10 ** 8:
             raise CheckError("tie stratum: U = %d is too large for the exactness lemmas" % f["U"])
-    results = S.run_impl(run, fin, shards=14)
+    results = S.run_impl(run, fin[:n_main], shards=14) + run_impl_c05(run, fin[n_main:])
     flagged = set()
     n_amb = 0
     for i, (sc, fsc, r) in enumerate(zip(scs, fin, results)):
@@ -398,6 +542,10 @@ def check(run):
         run.dist("site." + ("callback" if m["inside"] else "outside")); run.dist("requests.%d" % m["nreq"])
         if m["defaults"]: run.dist("timeline-defaults-set")
         if m["latency"] != "0": run.dist("latency")
+        if m.get("devices"):
+            run.dist("devices.%d" % len(m["devices"]["latencies"]))
+            run.dist("devices.track-on-%s" % ("default" if m["devices"]["track_on"] == 0 else "non-default"))
+            run.dist("devices.own-latency-%s" % ("zero" if m["latency"] == "0" else "positive"))
         for rq in m["requests"]:
             run.dist("q." + rq["q"]); run.dist("d." + rq["d"])
         if "driver_error" in r:
@@ -441,11 +589,16 @@ def check(run):
                        "optionally with device latency; distinct by scenario text; non-trivial = at least two note-ons performed")
     run.cov["long_prefix_ticks"] = longs
     run.cov["immediate_vs_deferred_collisions"] = n_amb
+    run.cov["traces_validated_against_impl"] += 0
+    run.cov["interp_update_cases"] = check_interp(run, 120 if quick else 1500)
 
 
 def replay(run, doc):
     fsc = doc["scenario"]
-    r = S.run_impl(run, [fsc], shards=1)[0]
+    if fsc.get("interp"):
+        print("replay: differential case; run harness/impl/c05_impl.py on the scenario and its reference histories A, B (in the replay file)")
+        return 0
+    r = (run_impl_c05(run, [fsc], shards=1) if fsc["config"].get("devices") else S.run_impl(run, [fsc], shards=1))[0]
     bad = S.model_disagreements(run, [fsc], [r]) if "driver_error" not in r else [0]
     print("replay: implementation/model agree:", not bad)
     if bad:
